@@ -76,7 +76,8 @@ func streamIds(s *stream.Stream, c *streamCtx) error {
 			implIv = append(implIv, fmt.Sprintf("%s:%d:%s", p, iv[0], e))
 		}
 		tot := goat.VerifTotalTrackIdxs(ivs)
-		s.Case("number "+strings.Join(reqFiles, " "), strings.TrimRight(strings.Join(implIv, " ")+" | "+proto.Ints(tot), " "), "", total > 0)
+		ans := strings.TrimRight(strings.Join(implIv, " ")+" | "+proto.Ints(tot), " ")
+		s.Case("number "+strings.Join(reqFiles, " "), ans, "judge:number "+strings.Join(reqFiles, " ")+" | "+ans, total > 0)
 		s.Count("number")
 		// components: random import lists per main
 		nm := 1 + c.rng.Intn(4)
@@ -122,8 +123,11 @@ func streamIds(s *stream.Stream, c *streamCtx) error {
 				var imps []string
 				for j := 0; j < np; j++ {
 					if c.rng.Intn(100) < 30 && j != 0 { // nobody imports the main package p0
-						imps = append(imps, fmt.Sprintf("\t\"example.com/m/p%d\"\n", j))
+						// every form of import declaration is an edge: plain, blank, dot, renamed
+						form := []string{"", "", "_ ", ". ", fmt.Sprintf("q%d ", j)}[c.rng.Intn(5)]
+						imps = append(imps, fmt.Sprintf("\t%s\"example.com/m/p%d\"\n", form, j))
 						adj[i] = append(adj[i], j)
+						s.Count("import-form:" + strings.TrimSpace(strings.TrimRight(form, "0123456789 ")+" "))
 					}
 				}
 				imps = append(imps, "\t\"fmt\"\n", "\t\"other.org/x/p1\"\n")
